@@ -7,6 +7,8 @@ import GeonumModel.Lemmas.Exact
 import GeonumModel.Lemmas.ExactAdd
 import GeonumModel.Lemmas.FloatProject
 import GeonumModel.Lemmas.FloatMetric
+import GeonumModel.Spec.RoundWitness
+import GeonumModel.Lemmas.FloatSumSpecial
 
 set_option linter.unusedSectionVars false
 set_option linter.unusedVariables false
@@ -283,8 +285,36 @@ theorem project_add_reject_float {a b : Geonum F} (ha : a.angle.Inv) (hpinv : (a
           + (40 * ((a.angle.blade + (a.project b).angle.blade + 2 : ℕ) : ℝ) + 170) * (1 / 2 ^ 53))) + 1 / 10 ^ 28 :=
   Geonum.sub_cartesian_float ha hpinv hma hmp hcb h1 h2
 
+/-- (B) **projection plus rejection reproduces `a` in rounded arithmetic, in EVERY branch** of the underlying subtraction — in particular
+    when `a` is parallel or anti-parallel to `b`, where `a − p` runs through the same-angle / opposite branch: the Cartesian components of
+    `p = a.project b` and `r = a.reject b` add up to those of `a` within the every-branch bound -/
+theorem project_add_reject_every_branch_float {a b : Geonum F} (ha : a.angle.Inv) (hpinv : (a.project b).angle.Inv)
+    (hma : a.MagDom) (hmp : (a.project b).MagDom)
+    (hcb : a.angle.blade + (a.project b).angle.blade + 2 ≤ 2 ^ 39) :
+    |val (a.reject b).mag * Real.cos (Angle.Tpi (a.reject b).angle) + val (a.project b).mag * Real.cos (Angle.Tpi (a.project b).angle)
+        - val a.mag * Real.cos (Angle.Tpi a.angle)|
+      ≤ (val a.mag + val (a.project b).mag) * (2 / 10 ^ 7 + 11 / 10 * (val (e10 : F)
+          + (40 * ((a.angle.blade + (a.project b).angle.blade + 2 : ℕ) : ℝ) + 170) * (1 / 2 ^ 53))) + 1 / 10 ^ 28 + 2 * val (e10 : F) ∧
+    |val (a.reject b).mag * Real.sin (Angle.Tpi (a.reject b).angle) + val (a.project b).mag * Real.sin (Angle.Tpi (a.project b).angle)
+        - val a.mag * Real.sin (Angle.Tpi a.angle)|
+      ≤ (val a.mag + val (a.project b).mag) * (2 / 10 ^ 7 + 11 / 10 * (val (e10 : F)
+          + (40 * ((a.angle.blade + (a.project b).angle.blade + 2 : ℕ) : ℝ) + 170) * (1 / 2 ^ 53))) + 1 / 10 ^ 28 + 2 * val (e10 : F) :=
+  Geonum.sub_cartesian_every_branch_float ha hpinv hma hmp hcb
+
 end B
 
 example {F : Type} [FloatSpec F] : (⟨zero, 1⟩ : Angle F).Inv := inv_zero 1
+
+
+/-! ### R — on the arithmetic that really rounds (`R64`: round-to-nearest on the binary64 grid, correctly rounded libm) -/
+section R
+
+/-- (R) `project_to_dimension(k)` is `|g|cos(kπ/2 − T g)` for every binary64 number and every `k < 2^53` -/
+theorem projectToDimension_rounded {g : Geonum R64} (hg : g.angle.Inv) (hm0 : 0 ≤ g.mag.v) (k : ℕ) (hk : k < 2 ^ 53) :
+    |(g.projectToDimension k).v - g.mag.v * Real.cos ((k : ℝ) * (Real.pi / 2) - Angle.Tpi g.angle)|
+      ≤ g.mag.v * ((e10 : R64).v + 1 / 10 ^ 14) + 1 / 10 ^ 30 :=
+  projectToDimension_float (F := R64) hg trivial hm0 k hk
+
+end R
 
 end GeonumModel.C11
